@@ -252,6 +252,13 @@ class Check:
             ent = known.get(key)
             if ent is not None and ent.get("status") == "known":
                 kf_counts[key] = kf_counts.get(key, 0) + 1
+                if kf_counts[key] == 1 and os.environ.get("VERIF_WRITE_KNOWN_REPLAYS") and ent.get("replay"):
+                    # maintenance only (never in a registered command): refresh the committed replay of a known finding
+                    path = os.path.join(VERIF, ent["replay"])
+                    os.makedirs(os.path.dirname(path), exist_ok=True)
+                    with open(path, "w") as fh:
+                        json.dump(jsonable({"property": self.pid, "module": self.modname, "evaluator": ev, "key": f["key"],
+                                            "case": case, "failure": f}), fh, indent=1)
                 continue
             new.setdefault(key, []).append((f, case, ev))
         for key, n in sorted(kf_counts.items()):
